@@ -23,6 +23,7 @@ type Proxy struct {
 	plans  []*Plan
 	conns  map[*pconn]struct{}
 	closed bool
+	status map[int]int // HTTP statuses of the answers that reached the client (relayed or canned)
 
 	Exchanges atomic.Int64
 }
@@ -33,8 +34,12 @@ type Plan struct {
 	ReqContains  string // substring of the request (head + body); "" = any
 	DataContains string // stream-data point: substring of a response chunk
 
-	Kind  string  // close | rst | stall | delay | hold
-	Point string  // pre-request | mid-request | post-request | resp-head-mid | resp-headers | resp-body-mid | event-k | pre-term | stream-data
+	Kind  string  // close | rst | stall | delay | hold | answer
+	Point string  // pre-request | mid-request | post-request | resp-head-mid | resp-headers | resp-body-mid | event-k | pre-term | stream-data | answer
+	// Answer (Kind "answer"): the proxy answers the matching request itself, as a gateway / load balancer /
+	// auth layer in front of the server does, instead of relaying it. No barrier: every matching exchange
+	// (up to Count) is answered as it comes.
+	Answer *Canned
 	Frac  float64 // byte offset as a fraction of the unit the point names (request / head / body or chunk)
 	Abs   int     // absolute offset instead of Frac when > 0; -1 = after the complete unit (stream-data)
 	K     int     // event-k: after the K-th complete SSE event; resp-body-mid on chunked bodies: inside the K-th chunk (1-based)
@@ -51,6 +56,16 @@ type Plan struct {
 	FiredN   atomic.Int32
 	release  chan struct{}
 	relOnce  sync.Once
+}
+
+// Canned is a complete (or deliberately never completed) HTTP/1.1 answer.
+type Canned struct {
+	Status  int
+	Headers []string // "Name: value"
+	Body    []byte
+	// Framing: length (Content-Length) | chunked (terminated) | unfinished (chunked, the terminating chunk
+	// never comes) | none (no body: Content-Length 0, nothing at all for 204/304) | eof (body ends with the connection)
+	Framing string
 }
 
 func (pl *Plan) init() {
@@ -416,6 +431,9 @@ func (pc *pconn) exchange(cbr, ubr *bufio.Reader) bool {
 	req := append(append([]byte{}, head...), body...)
 	pc.px.Exchanges.Add(1)
 	pl := pc.px.claim(method, req)
+	if pl != nil && pl.Kind == "answer" {
+		return pc.answer(pl, cbr)
+	}
 	at := func(point string) bool { return pl != nil && pl.Point == point }
 
 	if at("pre-request") {
@@ -473,6 +491,7 @@ func (pc *pconn) exchange(cbr, ubr *bufio.Reader) bool {
 	if !pc.w(rhead) {
 		return false
 	}
+	pc.px.noteStatus(status)
 	if at("resp-headers") {
 		if pc.hit(pl) {
 			return false
@@ -658,4 +677,86 @@ func (pc *pconn) relayChunked(ubr *bufio.Reader, pl *Plan, isSSE bool) bool {
 			}
 		}
 	}
+}
+
+func (px *Proxy) noteStatus(code int) {
+	px.mu.Lock()
+	if px.status == nil {
+		px.status = map[int]int{}
+	}
+	px.status[code]++
+	px.mu.Unlock()
+}
+
+// StatusCount is how many answers with this status reached a client so far.
+func (px *Proxy) StatusCount(code int) int {
+	px.mu.Lock()
+	defer px.mu.Unlock()
+	return px.status[code]
+}
+
+// answer writes the plan's canned answer; false ends the connection.
+func (pc *pconn) answer(pl *Plan, cbr *bufio.Reader) bool {
+	a := pl.Answer
+	var b bytes.Buffer
+	fmt.Fprintf(&b, "HTTP/1.1 %d %s\r\n", a.Status, statusText(a.Status))
+	for _, h := range a.Headers {
+		b.WriteString(h + "\r\n")
+	}
+	chunks := func() {
+		// two chunks, so that a reader sees the body arrive in pieces
+		h := len(a.Body) / 2
+		for _, part := range [][]byte{a.Body[:h], a.Body[h:]} {
+			if len(part) > 0 {
+				fmt.Fprintf(&b, "%x\r\n%s\r\n", len(part), part)
+			}
+		}
+	}
+	switch a.Framing {
+	case "length":
+		fmt.Fprintf(&b, "Content-Length: %d\r\n\r\n", len(a.Body))
+		b.Write(a.Body)
+	case "chunked":
+		b.WriteString("Transfer-Encoding: chunked\r\n\r\n")
+		chunks()
+		b.WriteString("0\r\n\r\n")
+	case "unfinished":
+		b.WriteString("Transfer-Encoding: chunked\r\n\r\n")
+		chunks()
+	case "eof":
+		b.WriteString("Connection: close\r\n\r\n")
+		b.Write(a.Body)
+	default: // none
+		if a.Status != 204 && a.Status != 304 {
+			b.WriteString("Content-Length: 0\r\n")
+		}
+		b.WriteString("\r\n")
+	}
+	ok := pc.w(b.Bytes())
+	if ok {
+		pc.px.noteStatus(a.Status)
+		pl.markFired()
+	}
+	switch {
+	case !ok:
+		return false
+	case a.Framing == "eof":
+		return false
+	case a.Framing == "unfinished":
+		// the answer is never completed: no further request can come on this connection; wait until the
+		// client gives the connection up (EOF / reset) or the harness cuts it
+		cbr.Peek(1)
+		return false
+	}
+	return true
+}
+
+func statusText(code int) string {
+	if t, ok := map[int]string{200: "OK", 202: "Accepted", 204: "No Content", 301: "Moved Permanently", 302: "Found", 303: "See Other", 307: "Temporary Redirect", 308: "Permanent Redirect",
+		400: "Bad Request", 401: "Unauthorized", 403: "Forbidden", 404: "Not Found", 405: "Method Not Allowed", 408: "Request Timeout", 409: "Conflict", 410: "Gone", 413: "Request Entity Too Large",
+		418: "I'm a teapot", 421: "Misdirected Request", 429: "Too Many Requests", 451: "Unavailable For Legal Reasons", 500: "Internal Server Error", 501: "Not Implemented", 502: "Bad Gateway",
+		503: "Service Unavailable", 504: "Gateway Timeout", 507: "Insufficient Storage"}[code]; ok {
+		return t
+	}
+	return "Status"
 }
